@@ -7,6 +7,9 @@ In exact arithmetic x -> a + s (p - a) follows from:
   R1.4 anchors = atoms with >= 2 bonds; frame neighbours = two lowest-numbered bonded atoms
   R1.5 the anchor assigned to a target atom is the nearest one among all frames
   R2.1 the frames used when the map is applied are those of the argument (recomputed on every call)
+  R2.3 only references of one or two atoms take the single-frame branch; every larger reference gets one
+       frame per anchor
+  RP.1 double precision is kept (no reduced-precision float type, no cast to a data-dependent dtype)
 """
 from ..core import Ctx
 from . import frames, exmap
@@ -38,3 +41,4 @@ def run(ctx: Ctx):
     exmap.r1_4(ctx)
     exmap.r1_5(ctx)
     exmap.r2_1(ctx)
+    exmap.r2_3(ctx)     # which references take the single-frame branch (one or two atoms only), and what it keeps
